@@ -236,10 +236,6 @@ func (p *process) cleanup(cancel context.CancelFunc) {
 	}
 	p.stopped = true
 
-	if p.context.parentCtx != nil {
-		p.context.parentCtx.children.Delete(p.pid.ID)
-	}
-
 	if p.context.children.Len() > 0 {
 		children := p.context.Children()
 		for _, pid := range children {
@@ -248,9 +244,16 @@ func (p *process) cleanup(cancel context.CancelFunc) {
 	}
 
 	p.inbox.Stop()
-	p.context.engine.Registry.Remove(p.pid)
 	p.context.message = Stopped{}
 	applyMiddleware(p.context.receiver.Receive, p.Opts.Middleware...)(p.context)
+
+	// Leave the registry and the parent's list of children only now: a parent
+	// that shuts down meanwhile, or another Stop/Poison caller, must still find
+	// us and wait until we have handled Stopped.
+	p.context.engine.Registry.Remove(p.pid)
+	if p.context.parentCtx != nil {
+		p.context.parentCtx.children.Delete(p.pid.ID)
+	}
 
 	p.context.engine.BroadcastEvent(ActorStoppedEvent{PID: p.pid, Timestamp: time.Now()})
 }
